@@ -1,9 +1,9 @@
 package rules
 
 import (
-	"regexp"
 	"fmt"
 	"go/types"
+	"regexp"
 	"sort"
 	"strings"
 
